@@ -210,6 +210,16 @@ pub fn run_text(text: &str, opts: RunOpts) -> ImplOutcome {
     finish(r, opts)
 }
 
+thread_local! {
+    static RELEASE_WITH_API: std::cell::Cell<bool> = std::cell::Cell::new(false);
+}
+
+/// C04: the harness, playing the caller, releases a returned result with the interpreter's own public
+/// `Object::free_recursive` (what the repository's tests do) instead of its own traversal.
+pub fn set_release_with_api(on: bool) {
+    RELEASE_WITH_API.with(|c| c.set(on));
+}
+
 fn finish(r: std::thread::Result<Result<Object, Error>>, opts: RunOpts) -> ImplOutcome {
     let output = verif::capture_take();
     let mut dead_result = false;
@@ -222,13 +232,23 @@ fn finish(r: std::thread::Result<Result<Object, Error>>, opts: RunOpts) -> ImplO
                 // the caller releases the result graph: each distinct box once
                 let mut boxes = Vec::new();
                 reachable_boxes(obj, &mut boxes);
-                for b in boxes {
-                    if !verif::is_alive(b) {
+                let via_api = RELEASE_WITH_API.with(|c| c.get());
+                for b in &boxes {
+                    if !verif::is_alive(*b) {
                         // the interpreter handed back something it had already released
                         dead_result = true;
-                        continue;
                     }
-                    b.free();
+                }
+                if via_api && !dead_result {
+                    if let Err(p) = std::panic::catch_unwind(|| obj.free_recursive()) {
+                        return ImplOutcome { output, end: ImplEnd::Panic(format!("free_recursive: {}", panic_message(p))), heap: vec![], leaked: 0 };
+                    }
+                } else {
+                    for b in boxes {
+                        if verif::is_alive(b) {
+                            b.free();
+                        }
+                    }
                 }
             }
             ImplEnd::Value(s)
